@@ -137,4 +137,16 @@ REGISTRY = {
     'C19': {'models': [], 'nontrivial': lambda c, p: c['files'] + c['raised'] > 0,
             'rule': 'code: all source kinds, layouts incl. views into larger buffers and read-only arrays, successful and failing writes; TLC compares the caller buffers (whole base buffer) before and after',
             'assumptions': COMMON_ASSUME},
+    'C12': {'models': [], 'nontrivial': lambda c, p: c['files'] + c['raised'] > 0,
+            'rule': 'code: every invalid class of the property (unequal rows, unsupported dtype, >2 dimensions, missing dataset, over-long names/labels/units/set names, non-ASCII text, integers outside their code, no origin/channels/frames) and degenerate inputs, combined with valid content; TLC requires: raised, or (for degenerate ones) a file every C01-C09/C16 clause accepts; non-trivial = a write was attempted',
+            'assumptions': COMMON_ASSUME},
+    'C14': {'models': [], 'nontrivial': lambda c, p: c['cmp'] > 0,
+            'rule': 'code: histories (1..3 other files built and written first, names reused with other origin/copy/type/value, HC entered and left, the same DLISFile written twice, mutation after a write) vs. a fresh process building the final specification alone; TLC compares the bytes of writes whose Canon and expected rows are equal; non-trivial = at least one comparison',
+            'assumptions': COMMON_ASSUME},
+    'C17': {'models': [], 'nontrivial': lambda c, p: c['hcev'] > 0 or c['files'] > 0,
+            'rule': 'code: each restricted aspect violated or not x enter/leave patterns (inside, outside, nested, after exception, decorator, after nested exit), followed by a breaching build outside the context; TLC tracks the flag with a stack model and judges flag discipline, breach-written, accepted-outside',
+            'assumptions': COMMON_ASSUME},
+    'C20': {'models': [], 'nontrivial': lambda c, p: c['rejected'] > 0 or c['raised'] > 0,
+            'rule': 'code: for every add_* method rejected calls (wrong type, value outside a hard enumeration, invalid reference, invalid cast dtype) first/between/after accepted same-named ones, in process 1; process 2 runs the history without them; TLC compares inventories with Canon and the projections (copy number, origin, dataset name) of the two processes; failed writes followed by a good one vs. a fresh process',
+            'assumptions': COMMON_ASSUME},
 }
